@@ -304,7 +304,7 @@ def random_project(rng, nspaces=None, with_geometry_walls=False, space_offsets=F
             g["tj"] = rb(0.05, 0.9, [0.0, 1.0])
     # groups of the library elements: written or left out (documented defaults), a different word in every place
     gr = random.Random(rng.random())
-    words = ["Grupo %s" % w for w in ("uno", "dos", "tres", "cuatro", "cinco", "seis", "siete", "ocho", "nueve", "diez", "once", "doce", "trece", "catorce",
+    words = ["Grupo = %s" % w if w in ("dos", "siete", "trece") else "Grupo %s" % w for w in ("uno", "dos", "tres", "cuatro", "cinco", "seis", "siete", "ocho", "nueve", "diez", "once", "doce", "trece", "catorce",
                                       "quince", "dieciseis", "diecisiete", "dieciocho", "diecinueve", "veinte", "veintiuno", "veintidos")]
     gr.shuffle(words)
     for kind in ("materials", "layers", "glasses", "gaps"):
@@ -362,7 +362,7 @@ def random_project(rng, nspaces=None, with_geometry_walls=False, space_offsets=F
                     if rng.random() < 0.5:
                         v["lfin"] = {"a": r2(0.05, 0.3), "b": r2(0.31, 0.6), "h": r2(1.0, 2.0), "d": rng.choice([0, r2(0.2, 0.9)])}
                     if rng.random() < 0.5:
-                        v["rfin"] = {"a": r2(0.05, 0.3), "b": r2(0.31, 0.6), "h": r2(1.0, 2.0), "d": r2(0.2, 0.9)}
+                        v["rfin"] = {"a": r2(0.05, 0.3), "b": r2(0.31, 0.6), "h": rng.choice([0, r2(1.0, 2.0), r2(1.0, 2.0)]), "d": r2(0.2, 0.9)}
                     if "lfin" in v and v["lfin"]["d"] > 0 and rng.random() < 0.4:
                         v["rfin"] = dict(v["lfin"])          # a symmetric pair of side fins
                     if force_devices and not forced:
